@@ -96,6 +96,8 @@ class ExprMixin:
                 f = self.th.uf("str_of_" + x.k + (x.cls or ""), x.t.sort(), self.th.Str)
                 return Sym(f(x.t), "str")
         if isinstance(x, VOpt):
+            if not self.feasible(x.is_none):       # narrowed by the path (inside `if x is not None:`)
+                return self.to_str(x.val)
             raise GenError("str() of optional")
         if isinstance(x, VExc):
             return self.fresh("str", "excmsg")
